@@ -12,7 +12,10 @@ constraint kind) inside the widest guard of C25_nest_groups_derived / ..., the d
 factor order "outer block's factors, then inner block's factors" (docsem orders a design's factors by derivation depth);
 L1-nestgroups: both sides of those theorems ([valid_b (nest_sem2 So Si) s] and the decided group specification
 [groups2_b So Si s]) evaluated by the extracted code on every sequence the exhausted IterateSATGen returns for a Nest
-inside a guard: they must agree and hold.  input_distribution reports the share of the generated Nests inside each guard.
+inside a guard: they must agree and hold.  input_distribution reports the share of the generated Nests inside each guard
+(guard:gen:<guard> of guard:gen:nests; a Nest with constraints of its own is counted under
+guard:gen:nestable_s_b+own-constraints: C25_nest_groups_own_constraints, the model gets the Nest's own constraints from
+the tail of the documented form's constraint list).
 Search (the property itself; the group specification is written here, the validity of
 the parts is judged by the reference oracle of the outer block alone and of the inner
 block alone - docsem.doc_sem(program, bid) - never by the library):
@@ -283,8 +286,6 @@ def nestsem2_observation(program):
     main = block_desc(program, program["main"])
     if main["kind"] != "Nest":
         return "not-a-nest", None
-    if main.get("constraints"):
-        return "nest-level-constraints", None       # nest_sem2 is the form of Nest(outer, inner) without constraints of its own
     try:
         o, i, n = docsem.doc_sem(program, main["outer"]), docsem.doc_sem(program, main["inner"]), docsem.doc_sem(program)
     except docsem.Unsupported:
@@ -296,8 +297,16 @@ def nestsem2_observation(program):
         return "shared-factors", None
     tpos = {f: j for j, f in enumerate(target)}
     pos = [tpos[f] for f in n.forder]
-    return None, {"line": "(nestsem2 %s %s)" % (to_wire(o.sem), to_wire(i.sem)), "expected": to_wire(renumber_sem(n.sem, pos)),
-                  "o": o, "i": i, "n": n, "target": target}
+    rn = renumber_sem(n.sem, pos)
+    own = None
+    if main.get("constraints"):
+        # the constraints of the Nest itself: the tail of the documented form's constraint list (after those inherited
+        # from the outer and from the inner block), handed to the model as they are - C25_nest_groups_own_constraints
+        # treats them as opaque conditions on the whole sequence
+        own = rn[3][len(o.sem[3]) + len(i.sem[3]):]
+    line = ("(nestsem2 %s %s)" % (to_wire(o.sem), to_wire(i.sem)) if own is None
+            else "(nestsem2own %s %s %s)" % (to_wire(o.sem), to_wire(i.sem), to_wire(own)))
+    return None, {"line": line, "expected": to_wire(rn), "o": o, "i": i, "n": n, "target": target, "own": own}
 
 
 def nestgroups_line(ob, samples, cap=CAP):
@@ -323,6 +332,8 @@ def nestgroups_line(ob, samples, cap=CAP):
         seqs.append(rows)
     if not seqs:
         return None
+    if ob.get("own") is not None:
+        return "(nestgroupsown %s %s %s %s)" % (to_wire(ob["o"].sem), to_wire(ob["i"].sem), to_wire(ob["own"]), to_wire(seqs))
     return "(nestgroups %s %s %s)" % (to_wire(ob["o"].sem), to_wire(ob["i"].sem), to_wire(seqs))
 
 
@@ -704,7 +715,11 @@ def run(ctx, res):
             ob2["guards"] = guards
             for g in GUARDS:
                 if guards.get(g):
-                    stats["guard:%s:%s" % (src, g)] += 1
+                    # a Nest with constraints of its own is inside a guard through C25_nest_groups_own_constraints (widest guard)
+                    if ob2.get("own") is None:
+                        stats["guard:%s:%s" % (src, g)] += 1
+                    elif g == GUARDS[-1]:
+                        stats["guard:%s:%s+own-constraints" % (src, g)] += 1
             if not guards.get(GUARDS[-1]):
                 stats["nestsem2:outside-guard"] += 1
                 continue
